@@ -106,6 +106,27 @@ class SplitSingleDim(Contract):
     def pre(self, S, env):
         return wf(env["self"])
 
+    def applies(self, receiver, args):
+        return receiver.fields.get("dim") == self.dim and len(args) == 1 and isinstance(args[0], int) and args[0] == self.d
+
+    def result(self, S, env):
+        # caller-side shape (refine with splitSingleDim): two fresh areas with their own coordinate lists; the twin lists are copies of the
+        # parent's with the two new areas as each other's twin in dimension d
+        dim, d = self.dim, self.d
+        p = env["self"].fields
+        kids = []
+        for i in range(2):
+            tw = Seq("list", list(p["twins"].items)) if isinstance(p.get("twins"), Seq) and p["twins"].concrete else Seq("list", [None] * dim)
+            kids.append(Obj("RefinementObjectExtendSplit", dict(start=Seq("list", [S.real("k%d.s%d" % (i, k)) for k in range(dim)]),
+                                                                end=Seq("list", [S.real("k%d.e%d" % (i, k)) for k in range(dim)]), dim=dim,
+                                                                coarseningValue=S.int("k%d.coarseningValue" % i), needExtendScheme=S.int("k%d.needExtendScheme" % i),
+                                                                numberOfRefinementsBeforeExtend=p["numberOfRefinementsBeforeExtend"], levelvec_dict={}, grid=p["grid"],
+                                                                twins=tw, twinErrors=Seq("list", [None] * dim), splitSingleDim=p.get("splitSingleDim"),
+                                                                automatic_extend_split=p.get("automatic_extend_split"), children=Seq("list", []))))
+        kids[0].fields["twins"].items[d] = kids[1]
+        kids[1].fields["twins"].items[d] = kids[0]
+        return Seq("list", kids)
+
     def post(self, S, old, env, result):
         so = old["self"].fields
         pb = box(old["self"])
@@ -190,6 +211,13 @@ class RefineExtendSplit(Contract):
     def pre(self, S, env):
         return wf(env["self"])
 
+    @staticmethod
+    def extend_cond(so):
+        return so["needExtendScheme"] >= so["numberOfRefinementsBeforeExtend"]
+
+    def split_counts(self):
+        return (2 ** self.dim,)
+
     def post(self, S, old, env, result):
         so = old["self"].fields
         pb = box(old["self"])
@@ -197,26 +225,75 @@ class RefineExtendSplit(Contract):
         if not ok:
             return [Cl("returns-triple", False, prop=True)]
         new, lmax_inc, upd = result.items
-        extend = so["needExtendScheme"] >= so["numberOfRefinementsBeforeExtend"]
+        extend = self.extend_cond(so)
         if len(new.items) == 1:
             c = new.items[0]
             cb = box(c)
             c0 = so["coarseningValue"]
             ones = isinstance(lmax_inc, Seq) and lmax_inc.concrete and len(lmax_inc.items) == self.dim and all(x == 1 for x in lmax_inc.items)
             return [Cl("returns-triple", True, prop=True),
-                    Cl("extend-only-after-enough-splits", extend, prop=True),
+                    # the decision rule and the exact bookkeeping are auxiliary (the statement of C07 fixes the outcome's shape, not the policy)
+                    Cl("extend-chosen-by-the-policy", extend),
                     Cl("extend-keeps-the-box", z3.And(*[z3.And(a == b, cc == dd) for (a, cc), (b, dd) in zip(cb, pb)]), prop=True),
-                    Cl("extend-decrements-coarsening-not-below-zero", z3.And(c.fields["coarseningValue"] == z3.If(c0 == 0, 0, c0 - 1), c.fields["coarseningValue"] >= 0), prop=True),
+                    Cl("extend-coarsening-never-negative", c.fields["coarseningValue"] >= 0, prop=True),
+                    Cl("extend-decrements-coarsening-not-below-zero", c.fields["coarseningValue"] == z3.If(c0 == 0, 0, c0 - 1)),
                     Cl("scheme-grows-exactly-when-coarsening-was-zero",
-                       z3.And(z3.Implies(c0 == 0, z3.BoolVal(ones and upd == 1)), z3.Implies(c0 != 0, z3.BoolVal(lmax_inc is None and upd is None))), prop=True),
+                       z3.And(z3.Implies(c0 == 0, z3.BoolVal(ones and upd == 1)), z3.Implies(c0 != 0, z3.BoolVal(lmax_inc is None and upd is None)))),
                     Cl("extend-keeps-split-count", c.fields["needExtendScheme"] == so["needExtendScheme"])]
-        if len(new.items) == 2 ** self.dim:
+        if len(new.items) in self.split_counts():
             cb = [box(x) for x in new.items]
             return [Cl("returns-triple", True, prop=True),
-                    Cl("split-only-before-enough-splits", z3.Not(extend), prop=True)] + tiling_clauses(pb, cb, self.dim) + [
+                    Cl("split-chosen-by-the-policy", z3.Not(extend))] + tiling_clauses(pb, cb, self.dim) + [
                 Cl("split-keeps-coarsening", z3.And(*[c.fields["coarseningValue"] == so["coarseningValue"] for c in new.items]), prop=True),
                 Cl("split-does-not-touch-the-scheme", lmax_inc is None and upd is None, prop=True)]
         return [Cl("returns-triple", False, prop=True)]
+
+
+class RefineExtendSplitAuto(RefineExtendSplit):
+    """automatic policy (automatic_extend_split True): the area is extended when the extend benefit of the parent comparison (plus the
+    absolute error correction when parent estimation is on) is smaller than the split benefit, and split otherwise.  Whatever the
+    benefits are, the outcome is one of the two well-formed refinements (C07: tiling, coarsening never negative)."""
+    inline = INLINE + ("ErrorInfo.get_split_benefit", "get_split_benefit", "ErrorInfo.get_extend_benefit", "get_extend_benefit",
+                       "ErrorInfo.get_extend_error_correction", "get_extend_error_correction")
+
+    def __init__(self, dim):
+        RefineExtendSplit.__init__(self, dim)
+        self.label = "RefinementObjectExtendSplit.refine[dim=%d,policy=automatic]" % dim
+
+    def inputs(self, S):
+        pi = Obj("ErrorInfo", dict(parent=None, level_parent=S.int("level_parent"), num_points_split_parent=S.int("num_points_split_parent"),
+                                   benefit_extend=S.real("benefit_extend"), benefit_split=S.real("benefit_split"),
+                                   extend_error_correction=S.real("extend_error_correction"), last_refinement_split=False))
+        return {"self": area(S, self.dim, automatic_extend_split=True, parent_info=pi, switch_to_parent_estimation=S.bool("switch_to_parent_estimation"))}
+
+    @staticmethod
+    def extend_cond(so):
+        pi = so["parent_info"].fields
+        corr = z3.If(pi["extend_error_correction"] >= 0, pi["extend_error_correction"], -pi["extend_error_correction"])
+        return pi["benefit_extend"] + z3.If(so["switch_to_parent_estimation"], corr, 0) < pi["benefit_split"]
+
+
+class RefineExtendSplitSingle(RefineExtendSplit):
+    """splitSingleDim True: the area is split in every dimension whose twin error reaches 0.9 of the largest one (get_split_dims), one
+    dimension after the other; the 2^k resulting areas tile the parent.  split_area_single_dim, get_split_dims and set_twin are inlined from
+    the real source (all loops run over concrete ranges for a fixed dimension and are unrolled)."""
+    inline = INLINE + ("RefinementObjectExtendSplit.split_area_single_dim", "split_area_single_dim", "RefinementObjectExtendSplit.get_split_dims", "get_split_dims")
+
+    def __init__(self, dim):
+        RefineExtendSplit.__init__(self, dim)
+        self.label = "RefinementObjectExtendSplit.refine[dim=%d,policy=split-then-extend,splitSingleDim]" % dim
+
+    def inputs(self, S):
+        dim = self.dim
+        twins = [Obj("RefinementObjectExtendSplit", dict(twins=Seq("list", [None] * dim), twinErrors=Seq("list", [None] * dim))) for _ in range(dim)]
+        return {"self": area(S, dim, splitSingleDim=True, twinErrors=Seq("list", [S.real("twinError%d" % k) for k in range(dim)]), twins=Seq("list", twins))}
+
+    def pre(self, S, env):
+        te = env["self"].fields["twinErrors"].items
+        return wf(env["self"]) + [("twin-errors-nonneg", z3.And(*[t >= 0 for t in te]))]
+
+    def split_counts(self):
+        return tuple(2 ** k for k in range(1, self.dim + 1))
 
 
 class UpdateES(Contract):
@@ -235,7 +312,7 @@ class UpdateES(Contract):
 
 
 CONTRACTS = [SplitSingleDim(dim, d) for dim in (1, 2, 3) for d in range(dim)] + [SplitArbitraryDim(dim) for dim in (1, 2, 3)] \
-    + [RefineExtendSplit(dim) for dim in (1, 2)] + [UpdateES()]
+    + [RefineExtendSplit(dim) for dim in (1, 2)] + [RefineExtendSplitAuto(dim) for dim in (1, 2)] + [RefineExtendSplitSingle(dim) for dim in (1, 2)] + [UpdateES()]
 LEMMAS = []
 ASSUMPTIONS = ["split functions verified for dimension d in {1,2,3} (loop-free unrolling, complete for those d; coordinates fully symbolic)",
                "grid.get_mid_point is the unweighted midpoint (Grid.get_mid_point inlined from the real source)",
